@@ -5,6 +5,8 @@ toy_asm.tokens_of).  Texts come from four streams:
   mal  gen_source(malformed=True) and the TOY part of props/c15.py (faults, look-alikes, token/byte soups)
   mut  character-level mutations of lines of the two streams above
   uni  lines built around the Unicode white-space / line-boundary / case-folding special characters
+  rnd  random token lines printed with random gaps (also none), letter case, surrounding white space, comments
+       (the printer render_line of Proofs/ToyLexProofs2.v, for which Props/C19Lex.v proves the round trip)
 Every text is compared as a whole (line numbers, name interning, stop at the first rejected line) and
 line by line (each line as a one-line text).  The model side is an extracted driver that answers
 "(c1 c2 ...)" with "((0 line...) dom)" or "((1 ln) dom)";  TOYLEX_DRIVER names the executable."""
@@ -155,13 +157,56 @@ def stream_uni(rng):
     return rng.choice(["\n", "\r\n", "\r", "\n"]).join(out) + rng.choice(["", "\n", "\r", "\x85"])
 
 
-STREAMS = {"wf": stream_wf, "mal": stream_mal, "mut": stream_mut, "uni": stream_uni}
+# the printer of Proofs/ToyLexProofs2.v (render_line): random token lines, gaps (possibly empty) at every token
+# boundary, random letter case, any str.strip() white space around, arbitrary comment
+PYSPACE = [chr(c) for c in (9, 32, 32, 32, 31, 0xa0, 0x1680, 0x2003, 0x202f, 0x205f, 0x3000)]
+WORDS = ["x", "loop", "_a1", "NOP", "ADD5", "ORacle", "L_2", "word", "data", "a" * 40, "Z9_", "sto", "x0x1"]
+
+
+def _gap(rng):
+    return rng.choice(["", "", " ", "\t", "  ", " \t "])
+
+
+def _value(rng):
+    n = rng.choice([0, 1, 7, 255, 4095, 65536, rng.randrange(0, 1 << 20)])
+    if rng.random() < 0.5:
+        return "0" * rng.choice([0, 0, 1, 3]) + str(n)
+    h = "%X" % n
+    return "0x" + "0" * rng.choice([0, 0, 2]) + (h.lower() if rng.random() < 0.5 else h)
+
+
+def stream_rnd(rng):
+    out = []
+    for _ in range(rng.randrange(1, 6)):
+        k = rng.random()
+        if k < 0.1:
+            body = "." + _gap(rng) + rng.choice(["text", "data"])
+        elif k < 0.3:
+            body = (rng.choice(WORDS) + _gap(rng) + ":" + _gap(rng) + "." + _gap(rng) + "word" + _gap(rng)
+                    + (_gap(rng) + "," + _gap(rng)).join(_value(rng) for _ in range(rng.randrange(1, 5))))
+        elif k < 0.4:
+            body = rng.choice(WORDS) + _gap(rng) + ":"
+        else:
+            body = (rng.choice(WORDS) + _gap(rng) + ":" + _gap(rng)) if rng.random() < 0.4 else ""
+            mn = rng.choice(TA.ADDR_MN + TA.NOADDR_MN)
+            body += "".join(c.lower() if rng.random() < 0.5 else c for c in mn)
+            if mn in TA.ADDR_MN:
+                body += _gap(rng) + (_value(rng) if rng.random() < 0.5 else rng.choice(WORDS))
+        lead = "".join(rng.choice(PYSPACE) for _ in range(rng.choice([0, 0, 1, 3])))
+        trail = "".join(rng.choice(PYSPACE) for _ in range(rng.choice([0, 0, 1, 3])))
+        cmt = ("#" + "".join(chr(rng.choice([35, 32, 58, 46, rng.randrange(32, 0x300)])) for _ in range(rng.randrange(0, 8)))
+               if rng.random() < 0.4 else "")
+        out.append(lead + body + trail + cmt)
+    return rng.choice(["\n", "\r\n", "\x85", "\x0c"]).join(out) + rng.choice(["", "\n"])
+
+
+STREAMS = {"wf": stream_wf, "mal": stream_mal, "mut": stream_mut, "uni": stream_uni, "rnd": stream_rnd}
 
 
 # ------------------------------------------------------------------ comparison
 
 def run(seed=0, budget=None, verbose=True, max_report=20):
-    budget = budget or {"wf": 1500, "mal": 2500, "mut": 4000, "uni": 1500}
+    budget = budget or {"wf": 1500, "mal": 2500, "mut": 4000, "uni": 1500, "rnd": 1500}
     m = Model()
     stats = {}
     seen = {}              # line -> class (distinct lines over all streams)
@@ -216,6 +261,6 @@ def run(seed=0, budget=None, verbose=True, max_report=20):
 if __name__ == "__main__":
     seed = int(sys.argv[1]) if len(sys.argv) > 1 else 0
     scale = float(sys.argv[2]) if len(sys.argv) > 2 else 1.0
-    budget = {k: int(v * scale) for k, v in {"wf": 1500, "mal": 2500, "mut": 4000, "uni": 1500}.items()}
+    budget = {k: int(v * scale) for k, v in {"wf": 1500, "mal": 2500, "mut": 4000, "uni": 1500, "rnd": 1500}.items()}
     _, tot, bad = run(seed, budget)
     sys.exit(1 if bad else 0)
